@@ -132,7 +132,10 @@ WriteBlock(pl, k) ==
 \* common tail of a successful, state-changing set / remove
 Commit(pl, k, mk, v, dec, decsize) ==
    LET w == WriteBlock(pl, k)
-       inc == IF w.cow /\ ~DevCowNoEaRef THEN EaIds(BlP(place, ib)) ELSE {}
+       \* leaving a shared block (private copy, or dropping our reference to it): the entries it names stay referenced
+       \* by the peer, so what we carry over or drop must not consume the block's references (the kernel clones the
+       \* block and takes a reference on every value inode first: ext4_xattr_inode_inc_ref_all)
+       inc == IF pstate = "shared" /\ ~DevCowNoEaRef THEN EaIds(BlP(place, ib)) ELSE {}
    IN /\ place' = pl /\ ib' = k
       /\ hasblk' = w.hasblk /\ pstate' = w.pstate /\ pblk' = w.pblk
       /\ magic' = (magic \/ ISZ > 128)
